@@ -124,6 +124,19 @@ def run_case(case, ctx):
         pval[(x, y)] = ctx.call("pair_value", fn["dist"], sts[x], sts[y], **pkw)
     F = ctx.call("multi_profile", fn["profile"], sts, **kw)
     V = ctx.call("multi_value", fn["dist"], sts, **kw)
+    if case.get("reconcile_off") and not auto:
+        # valid input handed over with Reconcile=False (also with one object sitting at
+        # several positions of the list): the same aggregate
+        Vr = ctx.call("multi_value_reconcile_off", fn["dist"], sts, Reconcile=False, **kw)
+        ctx.check(ps.close(Vr, Fr(float(V)), tol), "reconcile_off_changes_value",
+                  lambda: "%s(list)=%r but with Reconcile=False %r (alias_equal=%r)"
+                  % (meas, float(V), float(Vr), case.get("alias_equal")))
+        Fr_ = ctx.call("multi_profile_reconcile_off", fn["profile"], sts, Reconcile=False, **kw)
+        ctx.check(list(Fr_.x) == list(F.x) and
+                  all(ps.all_close(list(getattr(Fr_, a_)), [float(v) for v in getattr(F, a_)], tol)
+                      for a_ in ("y", "y1", "y2", "mp") if hasattr(F, a_)),
+                  "reconcile_off_changes_profile",
+                  lambda: "%s profile of the list differs with Reconcile=False" % meas)
     perm = case["perm"]
     psts = [sts[k] for k in perm]
     Fp = ctx.call("multi_profile_permuted", fn["profile"], psts, **kw)
